@@ -200,6 +200,8 @@ func nonNegAtom(a *Atom) bool {
 	switch a.Kind {
 	case "len", "val", "Len", "round8", "wrap", "min":
 		return true
+	case "opq":
+		return strings.HasPrefix(a.Path, "len(") // the length of a slice the interpreter cannot name
 	case "sum":
 		return a.Sub[0].NonNeg()
 	case "ite":
